@@ -1,0 +1,28 @@
+//go:build verif
+
+package hsms
+
+// Verification hooks (build tag `verif` only): reach the write-boundary seam of writeFrame so the
+// verification harness can move the logical state between the B1 entry gate and the B2 re-check — the
+// one window that cannot be produced from outside. Add-only; nothing here is compiled without the tag.
+
+// VerifSetAfterWriteLock installs fn as the writeFrame test seam (called under the write lock, after the
+// conn capture, before the B2 re-check). It must be installed before any send is in flight. It reports
+// whether c is the engine's concrete connection type.
+func VerifSetAfterWriteLock(c Connection, fn func()) bool {
+	cc, ok := c.(*connection)
+	if !ok {
+		return false
+	}
+	cc.testHookAfterWriteLock = fn
+
+	return true
+}
+
+// VerifSelectLost performs the synchronous Selected -> NotSelected commit the transport performs when it
+// answers a Deselect.req (TransportRuntime.SelectLost).
+func VerifSelectLost(c Connection) {
+	if cc, ok := c.(*connection); ok {
+		cc.SelectLost()
+	}
+}
